@@ -8,6 +8,7 @@ import (
 	"strings"
 
 	z "github.com/Oudwins/zog"
+	"github.com/Oudwins/zog/parsers/zjson"
 
 	"zogverif/internal/core"
 	"zogverif/internal/gen"
@@ -296,8 +297,100 @@ func c10NonTestPaths(c *core.Ctx) bool {
 	return true
 }
 
+// c10Directed: (a) a schema key that Go resolves to a field promoted from an embedded struct is keyed by THAT field's tags - when two
+// embedded structs promote the same name at different depths Go picks the shallowest, whatever the declaration order; (b) a test that
+// carries both IssuePath and a MessageFunc that edits the issue's path is reported under the IssuePath.
+type C10Audit struct {
+	ID   string `zog:"audit_id" json:"audit_json"`
+	Note string `zog:"audit_note"`
+}
+type C10Base struct {
+	C10Audit
+	Kind string `zog:"base_kind"`
+}
+type C10Meta struct {
+	ID string `zog:"meta_id" json:"meta_json"`
+}
+type c10Doc struct {
+	C10Base
+	C10Meta
+	Title string
+}
+
+func c10Directed(c *core.Ctx) bool {
+	keysOf := func(m z.ZogIssueMap) string {
+		var ks []string
+		for k, l := range m {
+			if k == "$first" {
+				continue
+			}
+			for _, e := range l {
+				if e.Path != k {
+					ks = append(ks, fmt.Sprintf("(issue with path %q under key %q)", e.Path, k))
+				}
+			}
+			ks = append(ks, k)
+		}
+		sort.Strings(ks)
+		return strings.Join(ks, ", ")
+	}
+	mk := func() *z.StructSchema {
+		return z.Struct(z.Schema{"ID": z.String().Required(), "note": z.String().Required(), "kind": z.String().Required(), "title": z.String().Required()})
+	}
+	for _, mode := range []string{"Parse(map)", "Parse(zjson)", "Validate"} {
+		var d c10Doc
+		var m z.ZogIssueMap
+		want := "audit_note, base_kind, meta_id, title"
+		switch mode {
+		case "Parse(map)":
+			m = mk().Parse(map[string]any{}, &d)
+		case "Parse(zjson)":
+			m = mk().Parse(zjson.Decode(strings.NewReader(`{"other":1}`)), &d)
+			want = "audit_note, base_kind, meta_json, title"
+		default:
+			m = mk().Validate(&d)
+		}
+		c.Eval(1)
+		if got := keysOf(m); got != want {
+			c.Violation("issue-paths|promoted-field", map[string]any{"destination": "struct{ C10Base{ C10Audit{ID `zog:audit_id json:audit_json`; Note `zog:audit_note`}; Kind `zog:base_kind` }; C10Meta{ID `zog:meta_id json:meta_json`}; Title }  (d.ID is d.C10Meta.ID: the shallowest)", "schema": "{ID, note, kind, title: String().Required()}", "mode": mode, "keys": got, "want": want})
+			return false
+		}
+		// and the value goes where Go says d.ID is
+		var d2 c10Doc
+		if mode == "Parse(map)" {
+			mk().Parse(map[string]any{"meta_id": "m", "audit_id": "a", "audit_note": "n", "base_kind": "k", "title": "t"}, &d2)
+			if d2.C10Meta.ID != "m" || d2.C10Audit.ID != "" || d2.Note != "n" || d2.Kind != "k" {
+				c.Violation("issue-paths|promoted-field-value", map[string]any{"destination_after_parse": fmt.Sprintf("%+v", d2), "want": "C10Meta.ID = m (read from key meta_id), C10Audit.ID untouched"})
+				return false
+			}
+		}
+	}
+	for _, mode := range []string{"Parse", "Validate"} {
+		rewrite := z.MessageFunc(func(e *z.ZogIssue, ctx z.Ctx) { e.Path = "form." + e.Path; e.Message = "too short" })
+		st := z.Struct(z.Schema{"name": z.String().Min(5, z.IssuePath("fullname"), rewrite), "nick": z.String().Min(5, rewrite, z.IssuePath("alias"))})
+		type rec struct{ Name, Nick string }
+		d := rec{Name: "ab", Nick: "cd"}
+		var m z.ZogIssueMap
+		if mode == "Parse" {
+			m = st.Parse(map[string]any{"name": "ab", "nick": "cd"}, &d)
+		} else {
+			m = st.Validate(&d)
+		}
+		c.Eval(1)
+		if got := keysOf(m); got != "alias, fullname" {
+			c.Violation("issue-paths|IssuePath-next-to-a-MessageFunc-that-edits-the-path", map[string]any{"schema": "{name: String().Min(5, IssuePath(fullname), MessageFunc(e.Path = form.+e.Path)), nick: String().Min(5, MessageFunc(same), IssuePath(alias))}", "mode": mode, "keys": got, "want": "alias, fullname"})
+			return false
+		}
+	}
+	c.Count("directed_path_scenarios", 5)
+	return true
+}
+
 func (c10) RunCase(c *core.Ctx) {
 	if c.Case%20 == 6 && !c10NonTestPaths(c) {
+		return
+	}
+	if c.Case%40 == 9 && !c10Directed(c) {
 		return
 	}
 	if c.Case%3 == 2 {
